@@ -103,6 +103,7 @@ type OpIn struct {
 	Unscoped bool      `json:"unscoped,omitempty"`
 	Vals     [][]int64 `json:"vals,omitempty"` // per owner: target ids, 0 = a new (unsaved) record
 	Del      []int64   `json:"del,omitempty"`
+	None     bool      `json:"none,omitempty"`     // the call is made with NO target at all: Append(), Replace(), Delete()
 	SamePtr  bool      `json:"same_ptr,omitempty"` // a repeated existing target is THE SAME object (same pointer), not an equal copy
 	AsSlice  bool      `json:"as_slice,omitempty"` // struct handle / Delete: pass the targets as ONE slice argument
 }
@@ -443,9 +444,17 @@ func (e *Env) run(in Input) Result {
 		var err error
 		switch op.Op {
 		case "append":
-			err = assoc.Append(mkArgs()...)
+			if op.None {
+				err = assoc.Append()
+			} else {
+				err = assoc.Append(mkArgs()...)
+			}
 		case "replace":
-			err = assoc.Replace(mkArgs()...)
+			if op.None {
+				err = assoc.Replace()
+			} else {
+				err = assoc.Replace(mkArgs()...)
+			}
 		case "delete":
 			var args []interface{}
 			sameDel := map[int64]reflect.Value{}
@@ -475,7 +484,7 @@ func (e *Env) run(in Input) Result {
 		case "clear":
 			err = assoc.Clear()
 		}
-		ex := OpIn{Op: op.Op, Unscoped: op.Unscoped, Del: op.Del, SamePtr: op.SamePtr, AsSlice: op.AsSlice}
+		ex := OpIn{Op: op.Op, Unscoped: op.Unscoped, Del: op.Del, None: op.None, SamePtr: op.SamePtr, AsSlice: op.AsSlice}
 		for vi, os := range objs {
 			ids := []int64{}
 			for oi, o := range os {
@@ -509,8 +518,14 @@ func gOp(o OpIn) string {
 	switch o.Op {
 	case "append":
 		t = lib.App("OAppend", gLists(o.Vals))
+		if o.None {
+			t = "OAppendNone"
+		}
 	case "replace":
 		t = lib.App("OReplace", gLists(o.Vals))
+		if o.None { // Clear() IS Replace()
+			t = "OClear"
+		}
 	case "delete":
 		t = lib.App("ODelete", lib.ZList(o.Del))
 	default:
@@ -631,6 +646,15 @@ func genInput(r *lib.Rng, maxOps int, edge bool) Input {
 		default:
 			op.Op = "clear"
 		}
+		// every operation also with NO target at all: Append() (no change), Replace() (= Clear),
+		// Delete() (no change).  Not generated: Append() on a slice handle of a has-many / many2many
+		// relation, which gorm rejects by design (the number of value arguments must equal the
+		// number of owners: ErrInvalidValueOfLength).
+		if op.Op != "clear" && r.Chance(1, 8) && !(op.Op == "append" && !in.Single && !singleValued) {
+			op.None = true
+			in.Ops = append(in.Ops, op)
+			continue
+		}
 		switch op.Op {
 		case "append", "replace":
 			for oi := range in.Owners {
@@ -744,6 +768,14 @@ func sigOther(in Input) string {
 				}
 			}
 			del = append(del, t)
+		}
+		if op.None {
+			if op.Op == "replace" { // Replace() = Clear
+				for i := range sets {
+					sets[i] = map[int64]bool{}
+				}
+			}
+			continue
 		}
 		if rel.Kind == "KBelongs" && op.Unscoped {
 			switch op.Op {
@@ -912,6 +944,6 @@ func main() {
 		out.Count("known_shape", sig(in))
 		add(kind, in)
 	}
-	out.Extra["rule"] = "cases = histories of 1..8 (thorough 12) operations Append/Replace/Delete/Clear, each scoped or Unscoped, on one relation of kind {has one, has many, polymorphic has many and polymorphic has one (next to rows of ANOTHER owner type that carry the same owner ids, and that may be moved into the relation or named in its Delete), belongs to, many2many with struct elements, many2many with pointer elements}, through db.Model(&owner) or db.Model(&owners) (a fresh *Association per call, or - one history in five - ONE handle kept and reused for every operation, Count and Find) with 1..3 owners that start without links, next to 0..2 outside owners with existing links; targets are new records, existing unlinked rows, rows linked to the same owner, rows linked to outside owners, and duplicates (equal copies or THE SAME object repeated inside a slice argument and followed by further targets; variadic or one slice argument); Count(), Find(), raw foreign keys / join rows of the handle AND of every other owner / owner type, the target table and the in-memory fields are read after every operation; domain: for has one / has many / polymorphic a target is never given to two different owners of one handle; distinct = distinct (relation, handle, table sizes, operation sequence with sizes) shapes; non-trivial = the stored links change at least twice"
+	out.Extra["rule"] = "cases = histories of 1..8 (thorough 12) operations Append/Replace/Delete/Clear, each scoped or Unscoped, on one relation of kind {has one, has many, polymorphic has many and polymorphic has one (next to rows of ANOTHER owner type that carry the same owner ids, and that may be moved into the relation or named in its Delete), belongs to, many2many with struct elements, many2many with pointer elements}, through db.Model(&owner) or db.Model(&owners) (a fresh *Association per call, or - one history in five - ONE handle kept and reused for every operation, Count and Find) with 1..3 owners that start without links, next to 0..2 outside owners with existing links; every operation also with no target at all (Append(), Replace(), Delete()); targets are new records, existing unlinked rows, rows linked to the same owner, rows linked to outside owners, and duplicates (equal copies or THE SAME object repeated inside a slice argument and followed by further targets; variadic or one slice argument); Count(), Find(), raw foreign keys / join rows of the handle AND of every other owner / owner type, the target table and the in-memory fields are read after every operation; domain: for has one / has many / polymorphic a target is never given to two different owners of one handle; distinct = distinct (relation, handle, table sizes, operation sequence with sizes) shapes; non-trivial = the stored links change at least twice"
 	lib.Must(out.Flush())
 }
